@@ -350,14 +350,14 @@ def obligations(tier):
     obs.append(Ob('C15.own.loopback_after_traffic', 'harness.C15', 'own_loopback_after_traffic', timeout=tc, functions=F_OWN,
                   stubs=['NetworkingThread made with __new__ (no sockets, no threads); _known_message_ids = deque(maxlen=2..4) instead of 200',
                          'nt.random / nt.time replaced by deterministic stubs; message_reader returns a prepared message with the chosen id'],
-                  bounds='id memory of 2..4 (symbolic), 0..maxlen foreign ids known before (symbolic), own message sent, 0..maxlen-1 new '
-                         'foreign messages received (symbolic), then the own message looped back',
-                  claim='sent and received ids share one memory consistently: the own message is still ignored while fewer ids than the '
-                        'memory holds were recorded after it'))
+                  bounds='memory for foreign ids of 2..4 (symbolic; the purge threshold of own ids scaled alike), 0..maxlen foreign ids '
+                         'known before, own message sent, 0..5 further own messages, 0..5 new foreign messages received (more than the '
+                         'memory holds), then the own message looped back at the same instant',
+                  claim='the own message is ignored whatever other traffic was sent or received while its retransmissions are pending'))
     for second in (False, True):
         for stop in (False, True):
             for pa in ((0, 1) if second else (None,)):
-                bind = {'second': second, 'stop': stop}
+                bind = {'second': second, 'stop': stop, 'bad_a': False}
                 if pa is not None:
                     bind['pset_a'] = pa
                 name = ('two_messages' if second else 'one_message') + ('.stop_while_pending' if stop else '') + \
@@ -377,6 +377,13 @@ def obligations(tier):
                               claim='the send loop realises the schedule: every datagram leaves not before its scheduled instant and at most '
                                     'one polling period (max of SEND_LOOP_IDLE_SLEEP, SEND_LOOP_BUSY_SLEEP) after it; 1 + repeat datagrams '
                                     'per message, in order - also for a message enqueued while another one is waiting and while stopping'))
+    obs.append(Ob('C15.send_loop.after_unserialisable_message', 'harness.C15', 'send_loop_realises_schedule',
+                  bind={'second': True, 'stop': False, 'bad_a': True}, timeout=max(tc, 150),
+                  functions=['sdc11073.wsdiscovery.networkingthread.NetworkingThread._run_send',
+                             'sdc11073.wsdiscovery.networkingthread.NetworkingThread._send_msg'],
+                  stubs=['as C15.send_loop.*; message A raises in serialize()'],
+                  bounds='message A (2 parameter sets, 3 x 3 draws) cannot be serialised; message B enqueued at 0 .. 4/4 of A\'s schedule',
+                  claim='a message that cannot be sent does not end the sending thread: B is transmitted 1 + repeat times on schedule'))
     return obs
 
 
